@@ -29,6 +29,7 @@ def parse(text: str, statement_stream_processor: "StatementStreamProcessor", *, 
     pr = _ParseTreeProcessor(statement_stream_processor, strict=strict)
     try:
         pr.visit(_get_grammar().parse(text))  # type: ignore
+        pr.finalize()
     except _error.Error as ex:
         # Inject error location. If this exception is being propagated from a recursive instance, it already has
         # its error location populated, so nothing will happen here.
@@ -156,6 +157,13 @@ class _ParseTreeProcessor(parsimonious.NodeVisitor):
             self._statement_stream_processor.on_attribute_comment(self._comment)
         self._comment_is_header = False
         self._comment = ""
+
+    def finalize(self) -> None:
+        """
+        Shall be invoked once after the entire tree is visited. If the text does not end with an empty line,
+        the last comment, and with it the last attribute, is still pending at this point.
+        """
+        self._flush_comment()
 
     def generic_visit(self, node: _Node, visited_children: typing.Sequence[typing.Any]) -> typing.Any:
         """If the node has children, replace the node with them."""
